@@ -257,8 +257,9 @@ CLAIMED["C03"] = (
     "for all descriptors and values, a compound is the first accepting alternative in the evaluation order set_validate builds, "
     "tuples are element-wise with input re-use iff unchanged, and fast = Python for every non-compound trait type and for all "
     "clean compound trees of any nesting (C03_agree_partial / _compound_partial). The full statement is kept as a def and refuted "
-    "by five proved witnesses, each a known finding (F11 tuple subclass exact type, F40 Callable(allow_none=False), F41/F42 "
-    "coerce, F47 Instance(object) and None, F43 foreign exceptions in compound alternatives). validate_handlers[], the case labels "
+    "by proved witnesses, each a known finding (F11 tuple subclass exact type, F41/F42 coerce, F43a-c foreign exceptions in "
+    "compound alternatives, F44, F49; F2 NaN in float ranges, F40 Callable(allow_none=False), F47 Instance(object) and None and F48 "
+    "were repaired in /repo and the model follows the repaired code). validate_handlers[], the case labels "
     "of validate_trait_complex and _trait_set_validate, the ValidateTrait enum and the in_float_range comparisons are regenerated "
     "from the source on every run and proved equal to the model's tables. Correspondence: both real paths (ctrait.validate and "
     "handler.validate) vs both model functions on the full single-trait grid x value lattice and random compounds.",
@@ -311,8 +312,8 @@ CLAIMED["C20"] = (
     "NoRevisit (discharged for pairs and hubs), at most one change and one notification per trait per assignment, one-way links, "
     "removal, partner death, only the object's own validator or list operation ever raises, and C20_converge_history: after every "
     "history of assignments, mutators, mutual link/unlink and object deaths on one mutual link both sides are equal while it is "
-    "present. Two full-strength statements are kept as defs with proved refutations (F60 three lists linked in a cycle diverge; "
-    "F61 the items handler is registered only with the first partner). Correspondence: two- and three-sided histories incl. "
+    "present. One full-strength statement is kept as a def with a proved refutation (F60 three lists linked in a cycle diverge); "
+    "F6, F12, F61 (items handler registered only with the first partner) and F85 were repaired in /repo. Correspondence: two- and three-sided histories incl. "
     "gc.collect() at any point, model vs real code incl. lock tables and handler counts.",
     "Trusted: Lean kernel, standard axioms; Py.List/TraitList/guardLen shared with C05/C04; old != new is structural inequality of "
     "the harness values; the depth budget stands for CPython's recursion limit; garbage collection of a partner is real in the "
@@ -331,7 +332,8 @@ CLAIMED["C14"] = (
     "owner notified), ReadOnly stays written; CTrait state: for every trait in the inductive closure of the constructing API calls "
     "setstateIdx (getstateIdx t) = t, resting on table coverage proved by decide over the C handler tables regenerated from "
     "ctraits.c on every run (reverting fix ad5fa01 breaks this obligation and crashes the subprocess probe). Clauses the code "
-    "violates are refuted with witnesses (F71 deep copy of an unpickled Trait*Object, F72 all-transient class clones everything). "
+    "violated were repaired in /repo (F1, F3, F70-F73) and are proved at full strength; F92, F92b, F93 are known findings; the main and "
+    "the deferred if/elif chain of copy_traits are translated on every run and proved equal to the modelled one (C14_copy_chains_agree). "
     "Correspondence: objects after arbitrary container histories x pickle protocols 0-5, copy, deepcopy, clone modes, per-trait "
     "metadata; Instance graphs and CTrait round trips of every trait type in a crash-isolated subprocess.",
     "Trusted: Lean kernel, standard axioms; translator ctables; pickle/copy drivers and Instance graphs are modelled as leaves and "
@@ -351,7 +353,10 @@ CLAIMED["C18"] = (
     "tier runs ~4000 generated API programs (re-entrant handlers, callbacks raising at each ordinal, add/remove trait, pickling, "
     "gc at every point) in a subprocess against a clang-14 ASan+UBSan build of the extension, the quick tier fewer programs on the "
     "normal build watching for crashes; a report or crash is a violation with the program as replay. That tier is failing-input "
-    "search, not proof, and is labelled so in the evidence. NULL dereferences through raw CTrait(kind) objects (F75-F78) are known findings.",
+    "search, not proof, and is labelled so in the evidence. Also proved over translated facts: ownership of every stolen reference at "
+    "PyTuple/PyList_SET_ITEM sites, dealloc untracks first, tuple-rebuild exactness, the dispatch snapshot of call_notifiers and the "
+    "Raw ledger of aliased raw CTrait calls. The defects these streams found (F3, F21, F74-F79b: NULL dereferences through raw "
+    "CTrait(kind) objects, release-before-store, overwrite-without-release) were repaired in /repo.",
     "Trusted: Lean kernel, standard axioms; translator ctables (regex reader, fails closed); ledger scope is TraitKind.trait with "
     "non re-entrant handlers; tuple-shape agreement between _trait_set_validate cases and each validate_* function is exercised "
     "only under the sanitizer; no allocation-failure injection; hostile __setstate__ tuples excluded; the sanitizer tier is search; harness.",
